@@ -25,6 +25,7 @@ import threading
 import numpy as np
 
 from lib import repo, lattice, guard, tla
+from lib.core import MachineryError
 from checks import toastlat
 
 TWOPI = 2 * np.pi
@@ -73,7 +74,7 @@ def cell_distances(psi, d, x, y, v):
 
 def locate(psi, v, depth):
     """The cells of depth 1..depth of the lattice that hold the unit vector v, by descent (at every level the child v lies deepest
-    inside): [(x, y, margin)], margin = distance of v from the cell's boundary / the cell's shortest edge."""
+    inside): [(x, y, margin, distance)], distance (rad) of v from the cell's boundary, margin = distance / the cell's shortest edge."""
     out = []
     x = y = 0
     for d in range(1, depth + 1):
@@ -82,13 +83,15 @@ def locate(psi, v, depth):
             dist, short = cell_distances(psi, d, cx, cy, v)
             m = min(dist) / short
             if best is None or m > best[2]:
-                best = (cx, cy, m)
+                best = (cx, cy, m, min(dist))
         x, y = best[0], best[1]
         out.append(best)
     return out
 
 
-MARGIN = 1e-3        # a located point is judged at a depth only if it is at least this fraction of the cell's shortest edge inside the cell
+# a located point is judged at a depth only if it lies at least this far inside its cell: (fraction of the cell's shortest edge, radians).
+# Rounding in double precision moves a corner or an edge by ~1e-15 rad; the smallest cells asked about (depth 26) are 5e-8 rad wide.
+MARGIN = (1e-5, 1e-11)
 
 
 def expectation(t, qt, psi, v, dmax):
@@ -100,14 +103,14 @@ def expectation(t, qt, psi, v, dmax):
     it): not judged from the depth on at which it gets close."""
     exp = {0: {(0, 0, 0)}}
     loc = locate(psi, v, max(dmax, qt["R"], t.R - 1))
-    bad = [d for d, (_, _, m) in enumerate(loc, 1) if m < MARGIN]
+    bad = [d for d, (_, _, m, a) in enumerate(loc, 1) if m < MARGIN[0] or a < MARGIN[1]]
     first_bad = bad[0] if bad else len(loc) + 1
     if first_bad > qt["R"]:
         u = (loc[qt["R"] - 1][0], loc[qt["R"] - 1][1])
         for d in range(1, min(qt["D"], dmax) + 1):
             cells = qt["units"][u][d - 1]
             if cells != [(d, loc[d - 1][0], loc[d - 1][1])]:
-                raise guard.MachineryError("locating a point in the lattice: unit square %s at depth %d is held by %s according to TLC, by %s according to psi" % (u, d, cells, loc[d - 1]))
+                raise MachineryError("locating a point in the lattice: unit square %s at depth %d is held by %s according to TLC, by %s according to psi" % (u, d, cells, loc[d - 1]))
             exp[d] = set(cells)
         g = min(first_bad - 1, len(loc))
         for d in range(qt["D"] + 1, min(dmax, g) + 1):
@@ -118,7 +121,7 @@ def expectation(t, qt, psi, v, dmax):
         x, y = loc[n - 1][0], loc[n - 1][1]
         dist, short = cell_distances(psi, n, x, y, v)
         on = [k for k in range(4) if abs(dist[k]) < 1e-12]
-        off_ok = all(dist[k] > MARGIN * short for k in range(4) if k not in on)
+        off_ok = all(dist[k] > max(MARGIN[0] * short, MARGIN[1]) for k in range(4) if k not in on)
         cor = [(x, y), (x + 1, y), (x + 1, y + 1), (x, y + 1)]
         rep = None
         if off_ok and len(on) == 1:
@@ -165,12 +168,30 @@ def run(ctx):
     from toasty import toast
     q = ctx.quick
     ctx.rule = ("points = every lattice point of the bounded lattice (x both coordinate systems x longitude shifts) at every depth to MaxDepth, judged against TLC's "
-                "Admissible table; plus seeded interior points (pixel and sub-pixel centres) to depth 10 judged by the closed form; distinct = distinct "
-                "(coordinate system, lattice point, depth)")
+                "Admissible table; plus seeded interior points (pixel and sub-pixel centres) to depth 10 judged by the closed form; plus points given by coordinates "
+                "(integer radians; float32 / float16 values) located in the lattice and asked in every number type that denotes them; distinct = distinct "
+                "(coordinate system, lattice point or located point and its spelling, depth)")
     R, D = (5, 4) if q else (6, 5)
     t = toastlat.run_tlc(ctx, R, D, 1, adm=True)
     S = 2 ** R
     box = {"worstpix": 0.0}
+    # ToastQuery (units, formats) is checked by a second TLC run while the lookups of (a)-(c) are replayed; its table is first
+    # needed by (d)
+    RQ, DQ = (4, 4) if q else (6, 5)
+    qbox = {}
+
+    def _query_tlc():
+        try:
+            qbox["tables"] = query_tlc(ctx, RQ, DQ)
+        except BaseException as e:  # noqa - handed to the main thread
+            qbox["error"] = e
+    qthread = threading.Thread(target=_query_tlc)
+
+    def query_tables():
+        qthread.join()
+        if "error" in qbox:
+            raise qbox["error"]
+        return qbox["tables"]
 
     def work(csname, cs):
         """The checks for one coordinate system, as a coroutine: it yields after every call into the library so that the
@@ -342,6 +363,134 @@ def run(ctx):
             if not (err <= 2.0):
                 ctx.violation("C12:pixel_for_point:position", "depth %d [%s] lat %.5f lon %.5f (%+d turns): returned pixel (x %.2f, y %.2f), the nearest pixel centre is (col %d, row %d)"
                               % (d, csname, lat, lon, round(shift / TWOPI), float(x), float(y), c, r), {"cs": csname, "depth": d, "lat": lat, "lon": lon_q})
+        # ---- (d) the point as the caller writes it: the same real numbers in every number type that denotes them exactly
+        qt = query_tables()
+        rs = random.Random("%d-%s-spellings" % (ctx.seed, csname))
+
+        def ask(fn, d, la, lo, refusable):
+            """One call of an entry point with spelled coordinates -> its result, or None (refused / raised, already reported)."""
+            ctx.count()
+            try:
+                with guard.time_limit(20):
+                    return fn(d, la[1], lo[1], coordsys=cs)
+            except guard.TimeLimitExceeded:
+                ctx.violation("C12:%s:no-result" % fn.__name__[6:], "%s(%d, %s %r, %s %r, %s) did not return within 20 s" % (fn.__name__, d, la[0], la[1], lo[0], lo[1], csname), {"cs": csname})
+            except TypeError as e:
+                if refusable:
+                    ctx.add_note("spelled_queries_refused_with_TypeError(%s)" % (la[0] if la[2] else lo[0]))
+                else:
+                    ctx.violation("C12:%s:raises" % fn.__name__[6:], "%s(%d, %s %r, %s %r, %s) raised %r" % (fn.__name__, d, la[0], la[1], lo[0], lo[1], csname, e), {"cs": csname, "depth": d})
+            except Exception as e:  # noqa
+                ctx.violation("C12:%s:raises" % fn.__name__[6:], "%s(%d, %s %r, %s %r, %s) raised %r" % (fn.__name__, d, la[0], la[1], lo[0], lo[1], csname, e), {"cs": csname, "depth": d})
+            return None
+
+        def pairs_of(latv, lonv, n_cross):
+            """(lat spelling, lon spelling): both coordinates in the same type, for every type that can write both, and every type
+            for one coordinate with a Python float for the other (n_cross of them by lot; None = all)."""
+            L, M = spellings(latv), spellings(lonv)
+            names_m = dict((m[0], m) for m in M)
+            same = [(l, names_m[l[0]]) for l in L if l[0] in names_m]
+            cross = [(l, M[0]) for l in L[1:]] + [(L[0], m) for m in M[1:]]
+            if n_cross is not None and len(cross) > n_cross:
+                cross = rs.sample(cross, n_cross)
+            return same + cross
+
+        def judge_tile(latv, lonv, la, lo, d, exp, what):
+            tile = ask(toast.toast_tile_for_point, d, la, lo, la[2] or lo[2])
+            if tile is None:
+                return
+            pos = tuple(tile.pos)
+            toastlat.scribble(tile)
+            ctx.distinct((csname, "spelled", (latv, lonv), (la[0], lo[0]), d))
+            if pos not in exp:
+                narrow = is_narrow(la[1]) or is_narrow(lo[1])
+                ctx.violation("C12:tile_for_point:narrow-float-query" if narrow else "C12:tile_for_point:query-spelling",
+                              "%s: lat = %s %r, lon = %s %r [%s] depth %d: returned tile %s does not hold the point these numbers denote (lat %r, lon %r); the lattice's tile(s) for it: %s"
+                              % (what, la[0], la[1], lo[0], lo[1], csname, d, pos, latv, lonv, sorted(exp)), {"cs": csname, "depth": d, "lat": latv, "lon": lonv, "lat_type": la[0], "lon_type": lo[0]})
+
+        def judge_pixel(latv, lonv, la, lo, d, exp, v):
+            res = ask(toast.toast_pixel_for_point, d, la, lo, la[2] or lo[2])
+            if res is None:
+                return
+            tile, x, y = res
+            narrow = is_narrow(la[1]) or is_narrow(lo[1])
+            key = "narrow-float-query" if narrow else "query-spelling"
+            rep = {"cs": csname, "depth": d, "lat": latv, "lon": lonv, "lat_type": la[0], "lon_type": lo[0]}
+            pos = tuple(tile.pos)
+            ctx.distinct((csname, "spelled-pix", (latv, lonv), (la[0], lo[0]), d))
+            if pos not in exp:
+                ctx.violation("C12:pixel_for_point:" + key, "lat = %s %r, lon = %s %r [%s] depth %d: toast_pixel_for_point returns tile %s, the lattice's tile(s) for the point: %s"
+                              % (la[0], la[1], lo[0], lo[1], csname, d, pos, sorted(exp)), rep)
+                return
+            if d == 0:
+                parts = [[psi.grid(1, 0, 0, 7), psi.grid(1, 1, 0, 7)], [psi.grid(1, 0, 1, 7), psi.grid(1, 1, 1, 7)]]
+                g = np.concatenate([np.concatenate(parts[0], axis=1), np.concatenate(parts[1], axis=1)], axis=0)
+            else:
+                g = psi.grid(pos[0], pos[1], pos[2], 8)
+            r, c = np.unravel_index(np.argmax(g @ v), (256, 256))
+            err = max(abs(float(x) - c), abs(float(y) - r))
+            box["worstpix_spelled" if not narrow else "worstpix_narrow"] = max(box.get("worstpix_spelled" if not narrow else "worstpix_narrow", 0.0), err)
+            if not (err <= 2.0):
+                ctx.violation("C12:pixel_for_point:" + key, "lat = %s %r, lon = %s %r [%s] depth %d: returned pixel (x %.2f, y %.2f), the nearest pixel centre is (col %d, row %d)"
+                              % (la[0], la[1], lo[0], lo[1], csname, d, float(x), float(y), c, r), rep)
+
+        # (d1) whole numbers of radians: the equator written 0, latitude 1 / -1, longitudes 0 .. 6 and a few outside [0, 2 pi)
+        int_depths = list(range(0, 13)) + ([] if q else [16, 20, 24])
+        n_pt = 0
+        for latv in (0.0, 1.0, -1.0):
+            for lonv in (0.0, 1.0, 2.0, 3.0, 4.0, 5.0, 6.0) + ((-2.0, 8.0) if q else (-1.0, -2.0, -7.0, 7.0, 8.0, 13.0, 44.0)):
+                n_pt += 1
+                v = lattice.lonlat_to_vec(lonv, latv)
+                exp, kind = expectation(t, qt, psi, v, max(int_depths))
+                ctx.add_note("spelled_points_%s" % kind)
+                judged = [d for d in int_depths if d in exp]
+                for la, lo in pairs_of(latv, lonv, 2 if q else None):
+                    # quick: one depth per spelling by lot (mostly >= 2, where the descent by containment score begins); every
+                    # spelling still meets every point, and with 21 points x 2 systems every depth
+                    ds = [rs.choice([d for d in judged if d >= 2] or judged) if rs.random() < 0.85 else rs.choice(judged)] if q else judged
+                    for d in ds:
+                        judge_tile(latv, lonv, la, lo, d, exp[d], "whole radians")
+                        yield
+                    ctx.trace_ok()
+                # ... and the pixel (these points are more than a degree away from the poles)
+                # (quick: every third point, the types taken in turn)
+                pix_pairs = pairs_of(latv, lonv, None)
+                same_ = [pr for pr in pix_pairs if pr[0][0] == pr[1][0]]
+                for la, lo in ([same_[(5 * n_pt) % len(same_)]] if n_pt % 3 == 0 else []) if q else pix_pairs:
+                    d = rs.choice([d for d in (0, 1, 2, 3, 4, 6, 8) if d in exp])
+                    judge_pixel(latv, lonv, la, lo, d, exp[d], v)
+                    yield
+        # (d2) values of a narrow float type (float32, float16): lattice points (interior, as in (b)) rounded to the type; the point
+        # asked about is the exact value of the rounded numbers, located in the lattice anew
+        for it_ in range(12 if q else 240):
+            narrow_t, dcap = (np.float32, 26) if it_ % 4 else (np.float16, 16)
+            RR = dcap + 3
+            i, j = 2 * rs.randrange(2 ** (RR - 1)) + 1, 2 * rs.randrange(2 ** (RR - 1)) + 1
+            lon, lat = map(float, lattice.vec_to_lonlat(psi.vec(i, j, RR)))
+            with np.errstate(over="ignore"):
+                latv, lonv = float(narrow_t(lat)), float(narrow_t(lon))
+            if abs(latv) > np.pi / 2 - np.radians(1.0):
+                continue
+            v = lattice.lonlat_to_vec(lonv, latv)
+            exp, kind = expectation(t, qt, psi, v, dcap)
+            ctx.add_note("spelled_points_%s" % kind)
+            judged = sorted(d for d in exp if d >= 1)
+            if not judged:
+                continue
+            deep = [d for d in judged if d >= dcap - 5]
+            for la, lo in pairs_of(latv, lonv, 2 if q else None):
+                ds = [rs.choice(deep) if deep and rs.random() < 0.6 else rs.choice(judged)] if q else judged[::2] + deep
+                for d in sorted(set(ds)):
+                    judge_tile(latv, lonv, la, lo, d, exp[d], "%s values" % narrow_t.__name__)
+                    yield
+                ctx.trace_ok()
+            pix_pairs = pairs_of(latv, lonv, None)
+            same_ = [pr for pr in pix_pairs if pr[0][0] == pr[1][0]]
+            for la, lo in ([same_[(5 * it_) % len(same_)]] if it_ % 4 == 1 else []) if q else pix_pairs:
+                d = rs.choice([d for d in (0, 1, 2, 3, 4, 6, 8) if d in exp])
+                judge_pixel(latv, lonv, la, lo, d, exp[d], v)
+                yield
+
     def threaded():
         """Lookups are pure functions of their arguments: the answers are the same when several threads of one process ask at the
         same time (an interpreter switching threads every few bytecodes, as a busy server would)."""
@@ -406,6 +555,7 @@ def run(ctx):
                         ctx.violation(key, "centre of tile (%d, %d, %d) [%s]: the lookup at depth %d returns %s" % (n, x, y, csname, n, pos), {"cs": csname, "pos": (n, x, y)})
     deepest()
     threaded()
+    qthread.start()
     gens = [work(n_, c_) for n_, c_ in toastlat.coordsystems()]
     while gens:
         for g in list(gens):
@@ -415,8 +565,11 @@ def run(ctx):
                 gens.remove(g)
     worstpix = box["worstpix"]
     ctx.note("worst_pixel_error_px", worstpix)
+    ctx.note("worst_pixel_error_px_spelled_queries", box.get("worstpix_spelled", 0.0))
+    ctx.note("worst_pixel_error_px_narrow_type_queries", box.get("worstpix_narrow", 0.0))
     pmid = sorted(t.adm)[len(t.adm) // 2 + 3]
     ctx.sample({"lattice_point": list(pmid), "R": R, "admissible_by_depth": [sorted(s) for s in t.adm[pmid]]})
     ctx.sample({"lattice_point": [0, 0], "note": "south pole (a corner of the square)", "admissible_depth2": sorted(t.adm[(0, 0)][1])})
+    ctx.assume("a point given by coordinates is located in the lattice by the great circles through psi's corners; it is judged only where it lies at least 1e-5 of a cell edge and 1e-11 rad inside its cell, or exactly on a face of TLC's cell complex")
     ctx.assume("normalize(a + b) is the great-circle midpoint; psi validated against the real tile corners by C04")
     ctx.assume("the 2-pixel clause is judged for points at least one degree from the poles, as the property states")
